@@ -141,6 +141,15 @@ def syms_of(x, env):
     return out
 
 
+def _sym_const(v, beta):
+    """A non-integer constant inside a symbolic expression (beta non-empty: the expression is being evaluated at a sample point)
+    reaches the symbolic back end as a 15-significant-digit decimal (SymPy prints Floats that way when it generates the
+    function), i.e. with a relative error of up to 5e-15: the reference carries 1e-14 |c| as its error bound."""
+    if beta and isinstance(v, V) and v.kind != "int":
+        return V(v.kind, v.v, v.err + N.mpf("1e-14") * abs(v.v))
+    return v
+
+
 def ev(x, env, beta=None):
     """Evaluate a surface expression / tree node to a value."""
     beta = beta or {}
@@ -152,11 +161,11 @@ def ev(x, env, beta=None):
         if x.kind == "int":
             return N.from_int_literal(int(x.text))
         if x.kind == "float":
-            return N.from_float_text(x.text)
+            return _sym_const(N.from_float_text(x.text), beta)
         if x.kind == "complex":
-            return N.from_complex(complex(x.text))
+            return _sym_const(N.from_complex(complex(x.text)), beta)
         if x.kind == "pi":
-            return N.pi()
+            return _sym_const(N.pi(), beta)
         raise RefModelError("bad literal kind %s" % x.kind)
     if isinstance(x, A.Var):
         if x.name not in env:
@@ -164,7 +173,7 @@ def ev(x, env, beta=None):
         v = env[x.name]
         if isinstance(v, RSym):
             return _need_num(v.eval(beta))
-        return v
+        return _sym_const(v, beta)
     if isinstance(x, A.Reg):
         key = ("r", int(x.text[1:]))
         if key not in beta:
@@ -188,7 +197,7 @@ def ev(x, env, beta=None):
         el = flat[k.v]
         if isinstance(el, RSym):
             return _need_num(el.eval(beta))
-        return el
+        return _sym_const(el, beta)
     if isinstance(x, A.Paren):
         return ev(x.e, env, beta)
     if isinstance(x, A.Fn):
